@@ -926,3 +926,22 @@ Proof.
   pose proof (ends_with_terminals _ _ He (terminal_of_is_terminal _ _)) as Ht.
   rewrite (transact_table sw f b Hb) in *. rewrite Ho in *. simpl in *. split; [reflexivity|exact Ht].
 Qed.
+
+(* ---- the breaker never trips on acceptable outcomes ---- *)
+Lemma brk_all_accepted_no_reject s : bk_accepts s = bk_total s -> brk_may_reject s = false.
+Proof. intro H. unfold brk_may_reject. rewrite H. apply Z.ltb_ge. lia. Qed.
+
+Lemma run_stream_never_rejects : forall owns s,
+  forallb query_marks_success owns = true -> bk_accepts s = bk_total s ->
+  forallb negb (fst (run_stream s owns)) = true /\
+  bk_accepts (snd (run_stream s owns)) = bk_total (snd (run_stream s owns)) /\
+  bk_total (snd (run_stream s owns)) = bk_total s + List.length owns.
+Proof.
+  induction owns as [|own r IH]; intros s Hall Hs; simpl.
+  - repeat split; auto.
+  - simpl in Hall. apply andb_true_iff in Hall as [H1 H2]. rewrite H1.
+    assert (Hs' : bk_accepts (brk_mark true s) = bk_total (brk_mark true s)) by (simpl; lia).
+    destruct (IH (brk_mark true s) H2 Hs') as [A [B C]].
+    destruct (run_stream (brk_mark true s) r) as [l s'] eqn:E. simpl in *.
+    rewrite (brk_all_accepted_no_reject s Hs). simpl. repeat split; auto. lia.
+Qed.
